@@ -9,6 +9,10 @@ CHECKS = {
    text="Exhaustive evaluation of every ordered operand pair of a boundary lattice (all 2^k, 2^k±1, k≤64, both signs, limits and neighbours; both internal representations of every value below 2^63) under all five operators, unary minus, printing and six comparisons on the real integer class, plus the same arithmetic through literals in every radix and the engine, each result compared with exact integers. Arithmetic is a pure function of two operands, so complete enumeration of the boundary lattice is the right level: every branch of the sign/magnitude case analysis is selected by some lattice pair.",
    note="Python integers are the reference; operands outside the lattice (random 64-bit values) are not explored; int_harness links /repo/libzwerg/int.cc unmodified.",
    tech="bounded exhaustive enumeration of operand pairs on the implementation vs exact-integer reference model"),
+ "C16": dict(cat="model_checking", ref="DESIGN.md §3 C16",
+   text="Explicit-state breadth-first search on the real coverage class: from the empty set, add/remove of every interval (incl. zero length) of an N-address universe until no new representation appears, at four bases (low, straddling 2^32, straddling 2^63, ending at 2^64-2). In every state the representation invariant (sorted, disjoint, non-adjacent, non-empty runs) and the denoted bitmap are checked, so the number of states must be exactly 2^N; every state answers all interval queries and every ordered pair of states goes through union, difference, intersection, containment, overlap and equality against the bitmap. The Zwerg words are then run on all sets and all ordered pairs of a smaller universe built in three different ways. The class is a small state machine over interval lists, which BFS to a fixpoint covers completely for the universe size.",
+   note="Bitmap model; N=8/10 (class) and 5/7 (engine) addresses; zero-length is_covered/is_overlap and find_holes are unreachable from Zwerg and not judged.",
+   tech="explicit-state BFS to fixpoint over the real class with bitmap reference model; exhaustive pairs through the engine"),
 }
 NOT_YET = "check under construction in this session; not claimed until it has run to completion on the unchanged tree"
 
